@@ -536,3 +536,14 @@ def expect_caught(module, cfg, deviations, **kw):
         hit = [v for v in r.violated if v in expected or expected == "*"]
         out.append((dev, hit[0] if hit else None, r.violated))
     return out
+
+
+def spec_workdir():
+    """A temp directory holding symlinks to every file of spec/, so that generated modules / cfgs can be added
+    next to them without touching the committed directory.  Caller removes it."""
+    d = tempfile.mkdtemp(prefix="vf-spec-")
+    for fn in os.listdir(SPEC):
+        src = os.path.join(SPEC, fn)
+        if os.path.isfile(src):
+            os.symlink(src, os.path.join(d, fn))
+    return d
